@@ -53,3 +53,4 @@ for name, cls in okp.items():
     out["OKP_special"][name] = found
     print(name, tries, sorted(found))
 json.dump(out, open(os.path.join(os.path.dirname(os.path.dirname(os.path.abspath(__file__))), "keys", "pool.json"), "w"), indent=0)
+# two 1024-bit keys with a CRT member (dp / dq / qi) one octet shorter than the primes were appended by hand (search loop over generated keys)
